@@ -5,8 +5,11 @@ import hashlib, json, glob, os, subprocess, time, shutil, tempfile
 from concurrent.futures import ThreadPoolExecutor
 import common, orch_env
 
-TRANSLATORS = ['t_step', 't_interp']
+TRANSLATORS = ['t_step', 't_interp', 't_shell', 't_report']
 TRUSTED = orch_env.SHIMS_USED + [
+    'scope of the reachability relation reachv: every invocation on the build directory is given the same skip set (the entry scripts rewrite the skip '
+    'records when an invocation is resumed at step 1 with other -s options); parallel steps are outside the property - the boundary is the theorem '
+    'C03_parallel_resume_skips_inflight, replayed on the real canvas in every run',
     'the abstract step file (rows in ascending id order) is what C01 proves robsd-step maintains; a crash INSIDE one robsd-step -W is outside the quantifier',
     'crash = SIGKILL of the orchestrator\'s whole session at a point observed through the probe trace / the step file']
 
@@ -87,9 +90,17 @@ def part_a(ctx, impl, drv, res, n):
 def gen_e2e(rng):
     n = rng.randint(2, 5)
     steps = [{'name': NAMES[i], 'exit': 0} for i in range(n)]
-    if rng.random() < 0.35:
+    dup = n >= 3 and rng.random() < 0.15
+    if dup:
+        # a repeated step name (accepted by the configuration): the later step carries the name of an earlier one
+        j = rng.randrange(1, n)
+        steps[j]['name'] = steps[rng.randrange(0, j)]['name']
+    if rng.random() < 0.45:
         steps[rng.randrange(n)]['exit'] = rng.choice([1, 2, 124])
-    skip = [s['name'] for s in steps if rng.random() < 0.2]
+        for s in steps:      # exit codes go with the name (the probe is told the code through a gate named after the step)
+            s['exit'] = max(t['exit'] for t in steps if t['name'] == s['name'])
+    dupnames = {s['name'] for s in steps if sum(1 for t in steps if t['name'] == s['name']) > 1}
+    skip = [s['name'] for s in steps if rng.random() < 0.2 and s['name'] not in dupnames]
     # crash point: ('start', name) = while that step runs (in-flight record written),
     #              ('done', name) = right after its completion record, ('early',) = before the first step record
     live = [s['name'] for s in steps if s['name'] not in skip]
@@ -104,7 +115,26 @@ def gen_e2e(rng):
     second = None
     if rng.random() < 0.3:
         second = [rng.choice(['start', 'done']), rng.choice(live)]
-    return {'steps': steps, 'skip': skip, 'crash': crash, 'second': second}
+    case = {'steps': steps, 'skip': skip, 'crash': crash, 'second': second}
+    first = live[0]
+    if (rng.random() < 0.6 and steps[0]['name'] == first and crash[0] != 'early' and crash[1] == first
+            and (crash[0] == 'start' or steps[0]['exit'] != 0)):
+        # the resume point will be step 1: the resumed invocation writes the skip records of ITS skip set (other -s options)
+        cand = [s['name'] for s in steps if s['name'] not in dupnames and s['name'] not in skip]
+        case['reskip'] = sorted(set(rng.sample(cand, min(len(cand), rng.choice([1, 1, 2]))))) if cand else []
+    if rng.random() < 0.5:
+        # "failed, repaired by the operator, resumed": the exit codes of the resumed invocations differ
+        ex2 = {s['name']: (0 if rng.random() < 0.7 else rng.choice([0, 1, 3])) for s in steps}
+        case['exits2'] = ex2
+    return case
+
+
+def phase_codes(case, k):
+    """exit code per step name in phase k (0 = the fresh run)"""
+    codes = {s['name']: s['exit'] for s in case['steps']}
+    if k > 0 and case.get('exits2'):
+        codes.update(case['exits2'])
+    return codes
 
 
 def abstract_rows(cv, bd):
@@ -114,9 +144,9 @@ def abstract_rows(cv, bd):
     return rows
 
 
-def run_until_crash(cv, args, case, crash):
+def run_until_crash(cv, args, case, crash, codes=None):
     """run canvas, open gates as steps start, kill at the crash point; returns (crashed?, rc, output)"""
-    codes = {s['name']: s['exit'] for s in case['steps']}
+    codes = codes or {s['name']: s['exit'] for s in case['steps']}
     base = len(cv.trace())
     proc = cv.start(args)
     deadline = time.time() + 20
@@ -172,7 +202,7 @@ def e2e_case(ctx, impl, case):
     cv = orch_env.Canvas(ctx, impl, work, [{'name': s['name']} for s in case['steps']], skip=case['skip'], ncpu=1)
     ob = {'phases': []}
     try:
-        crashed, rc, out = run_until_crash(cv, ['-d'], case, case['crash'])
+        crashed, rc, out = run_until_crash(cv, ['-d'], case, case['crash'], phase_codes(case, 0))
         bds = cv.builddirs()
         if not bds:
             ob['nobuilddir'] = True
@@ -186,7 +216,10 @@ def e2e_case(ctx, impl, case):
             cv.close_gates()
             if os.path.exists(os.path.join(cv.root, '.running')):
                 pass   # the lock of the killed invocation is still there: canvas -r on the same directory owns it
-            crashed2, rc2, out2 = run_until_crash(cv, ['-d', '-r', bd], case, cr or ['never'])
+            sargs = []
+            for nme in case.get('reskip') or []:
+                sargs += ['-s', nme]
+            crashed2, rc2, out2 = run_until_crash(cv, ['-d', '-r', bd] + sargs, case, cr or ['never'], phase_codes(case, len(ob['phases'])))
             import re
             m = re.search(r'at step (\d+)', out2)
             ob['phases'].append({'crashed': crashed2, 'rc': rc2, 'resumed_at': int(m.group(1)) if m else None,
@@ -210,14 +243,28 @@ def part_b(ctx, impl, drv, res, n):
         res.count('crash=%s' % case['crash'][0])
         if ob.get('nobuilddir'):
             continue
-        steps = case['steps'] + [{'name': 'end', 'exit': 0}]
-        stoks = [str(len(steps))]
-        for i, s in enumerate(steps, 1):
-            stoks += [str(i), s['name'].encode().hex(), str(s['exit'])]
+        names = [s['name'] for s in case['steps']] + ['end']
+        dup = len(set(names)) != len(names)
+        # invariant k_skip0 of the files the orchestrator leaves (C03_orchestrator_files_are_good; hypothesis of C05's status
+        # theorem for the modes that count failures), on every file observed
+        for ph in ob['phases']:
+            bad = [r for r in (ph.get('rows') or []) if r['skip'] == 1 and r['exit'] != 0]
+            if bad:
+                res.oracle_failures.append({'case': case, 'signature': 'skip-record-with-nonzero-exit',
+                                            'what': 'the step file holds the skip record %s: the report of a mode that counts failures would count the skipped step' % bad[0]})
+                break
+        if dup:
+            res.count('repeated step name')
+        if case.get('exits2'):
+            res.count('exit codes change on resume')
         for k in range(1, len(ob['phases'])):
             prev, cur = ob['phases'][k - 1], ob['phases'][k]
             if not prev['crashed']:
                 break
+            codes = phase_codes(case, k)
+            stoks = [str(len(names))]
+            for i, nme in enumerate(names, 1):
+                stoks += [str(i), nme.encode().hex(), str(codes.get(nme, 0))]
             rows = prev['rows']
             qs = [' '.join(['next'] + row_toks(rows))]
             a = common.run_driver(drv, qs)[0]
@@ -233,42 +280,131 @@ def part_b(ctx, impl, drv, res, n):
                 continue
             ok = common.run_driver(drv, [' '.join(['okresume', got] + row_toks(rows))])[0]
             executed = [t[1] for t in cur['trace'] if t[0] == 'start']
-            # oracle on what really ran: no step that had completed successfully runs again, none is skipped over
-            done_ok = {r['name'] for r in rows if r['skip'] == 0 and r['exit'] == 0 and r['name'] != 'end'}
-            rerun = [x for x in executed if x in done_ok]
-            if ok != '1' or rerun:
+            reskip = (case.get('reskip') or []) if got == '1' else []
+            if reskip:
+                # rv_reskip: step_write -S -e 0 for every name of the resumed invocation's skip set, before the loop
+                res.count('resumed at step 1 with other -s options')
+                byid = {r['id']: r for r in rows}
+                for nme in reskip:
+                    i = names.index(nme) + 1
+                    byid[i] = {'id': i, 'name': nme, 'exit': 0, 'skip': 1}
+                rows_loop = [byid[i] for i in sorted(byid)]
+            else:
+                rows_loop = rows
+            # ids of the steps really started: the trace has names; a repeated name is resolved in schedule order from the resume point on
+            exec_ids, ptr = [], max(int(got), 1) - 1
+            for nme in executed:
+                j = next((i for i in range(ptr, len(names)) if names[i] == nme), None)
+                if j is None:
+                    j = next((i for i in range(0, len(names)) if names[i] == nme), len(names))   # out of order / before the resume point
+                exec_ids.append(j + 1)
+                ptr = max(ptr, j + 1)
+            # the extracted oracle of C03_resumed_run_executes on what REALLY ran (proved to accept every run of the model)
+            okx = '1' if reskip else common.run_driver(drv, [' '.join(['okexec', got] + stoks + row_toks(rows) + [str(len(exec_ids))] + [str(i) for i in exec_ids])])[0]
+            if ok != '1' or okx != '1':
                 res.oracle_failures.append({'case': case, 'signature': 'resume-reexecutes-or-skips',
-                                            'what': 'resumed at %s from %s; executed %s; re-ran completed %s' % (got, rows, executed, rerun)})
+                                            'what': 'resumed at %s from %s; started steps %s (ids %s): %s' % (
+                                                got, rows, executed, exec_ids,
+                                                'records violate resume_ok' if ok != '1' else 'a completed step ran again, a step that did not complete was passed over, or the interrupted step did not run first')})
             # ground truth from the probes, not from the step file: which commands really ran to their end with status 0
             # before this resume; the resumed run (when it is not killed again) must execute exactly the other non-skipped
-            # steps, in order, up to and including the first one that fails
-            if not cur['crashed']:
+            # steps, in order, up to and including the first one that fails (names are positions when no name repeats)
+            if not cur['crashed'] and not dup:
                 truly_done = set()
                 for ph in ob['phases'][:k]:
                     for t in ph['trace']:
                         if t[0] == 'end' and t[2] == '0':
                             truly_done.add(t[1])
                 expect = []
+                skipped_now = {r['name'] for r in rows_loop if r['skip'] == 1}    # includes skip records of earlier resumed invocations
                 for st in case['steps']:
-                    if st['name'] in case['skip'] or st['name'] in truly_done:
+                    if st['name'] in case['skip'] or st['name'] in skipped_now or st['name'] in truly_done:
                         continue
                     expect.append(st['name'])
-                    if st['exit'] != 0:
+                    if codes[st['name']] != 0:
                         break
                 if executed != expect:
                     res.oracle_failures.append({'case': case, 'signature': 'resume-reexecutes-or-skips',
                                                 'what': 'commands that had completed successfully before the resume: %s; the resumed invocation executed %s, expected %s'
                                                         % (sorted(truly_done), executed, expect)})
             if not cur['crashed']:
-                a2 = common.run_driver(drv, [' '.join(['orch', got] + stoks + row_toks(rows))])[0]
+                a2 = common.run_driver(drv, [' '.join(['orch', got] + stoks + row_toks(rows_loop))])[0]
                 mrows, mex = [x.strip() for x in a2.split('|')]
-                idname = {str(i): s['name'] for i, s in enumerate(steps, 1)}
-                mexec = [idname[i] for i in mex.split()] if mex else []
                 irows = ' '.join('%d:%s:%d:%d' % (r['id'], r['name'].encode().hex(), r['exit'], r['skip']) for r in (cur['rows'] or []))
-                if mexec != executed or mrows != irows:
-                    res.disagreements.append({'case': case, 'why': 'resumed run', 'model': [mexec, mrows], 'impl': [executed, irows]})
+                if mex.split() != [str(i) for i in exec_ids] or mrows != irows:
+                    res.disagreements.append({'case': case, 'why': 'resumed run', 'model': [mex.split(), mrows], 'impl': [exec_ids, executed, irows]})
     if cases:
         res.samples.append(cases[-1])
+
+
+def parallel_boundary_case(ctx, impl, variant):
+    """The boundary theorem C03_parallel_resume_skips_inflight on the real canvas: two parallel steps p1, p2 and a
+    synchronous step c, ncpu 2.  p2 (variant 0) or p1 (variant 1: the control, the in-flight step has the higher id)
+    completes with exit 0, the other one is still running when the whole session is killed; then canvas -r."""
+    work = tempfile.mkdtemp(dir=ctx.mkscratch('c03p'))
+    cv = orch_env.Canvas(ctx, impl, work, [{'name': 'p1', 'parallel': True}, {'name': 'p2', 'parallel': True}, {'name': 'c'}], ncpu=2)
+    fin, hang = ('p2', 'p1') if variant == 0 else ('p1', 'p2')
+    ob = {'variant': variant}
+    try:
+        proc = cv.start(['-d'])
+
+        def both_started():
+            return {t[1] for t in cv.trace() if t[0] == 'start'} >= {'p1', 'p2'}
+        if not orch_env.wait_for(both_started, 15):
+            ob['error'] = 'parallel steps did not start'
+            cv.kill_all(proc)
+            return ob
+        cv.open_gate(fin, 0)
+
+        def fin_recorded():
+            bd = cv.builddirs()
+            rows = abstract_rows(cv, bd[0]) if bd else []
+            return (any(r['name'] == fin and r['exit'] == 0 for r in rows) and any(r['name'] == hang and r['exit'] == -1 for r in rows))
+        if not orch_env.wait_for(fin_recorded, 15):
+            ob['error'] = 'completion record of %s not seen' % fin
+            cv.kill_all(proc)
+            return ob
+        cv.kill_all(proc)
+        cv.reap_strays()
+        bd = cv.builddirs()[0]
+        ob['rows'] = abstract_rows(cv, bd)
+        pre = len(cv.trace())
+        cv.close_gates()
+        codes = {'p1': 0, 'p2': 0, 'c': 0}
+        case = {'steps': [{'name': n, 'exit': 0} for n in ('p1', 'p2', 'c')]}
+        crashed2, rc2, out2 = run_until_crash(cv, ['-d', '-r', bd], case, ['never'], codes)
+        import re
+        m = re.search(r'at step (\d+)', out2)
+        ob['resumed_at'] = int(m.group(1)) if m else None
+        ob['executed'] = [t[1] for t in cv.trace()[pre:] if t[0] == 'start']
+        ob['rows_after'] = abstract_rows(cv, bd) if os.path.isdir(bd) else None
+        ob['rc'] = rc2
+        return ob
+    finally:
+        cv.reap_strays()
+        shutil.rmtree(work, ignore_errors=True)
+
+
+def part_c(ctx, impl, drv, res):
+    """parallel steps are outside the property (sequential invocations); the model's answer for them is the boundary theorem"""
+    with ThreadPoolExecutor(2) as ex:
+        obs = list(ex.map(lambda v: parallel_boundary_case(ctx, impl, v), [0, 1]))
+    for ob in obs:
+        res.evaluations += 1
+        if ob.get('error'):
+            res.tie_errors.append('parallel boundary lane: ' + ob['error'])
+            continue
+        rows = ob['rows']
+        model_next = common.run_driver(drv, [' '.join(['next'] + row_toks(rows))])[0].split('|')[0]
+        got = str(ob['resumed_at']) if ob['resumed_at'] is not None else '-'
+        hang = 'p1' if ob['variant'] == 0 else 'p2'
+        rerun = hang in ob['executed']
+        res.count('parallel boundary: in-flight %s, resumed at %s, in-flight step %s' % (hang, got, 're-executed' if rerun else 'NOT re-executed'))
+        # variant 0 is the theorem: file 1,p1,-1 2,p2,0 -> step_next 3, p1 never runs again; variant 1 (in-flight step last) resumes at it
+        want_next, want_rerun = ('3', False) if ob['variant'] == 0 else ('2', True)
+        if got != model_next or got != want_next or rerun != want_rerun:
+            res.disagreements.append({'case': {'parallel_boundary': ob['variant']}, 'why': 'parallel boundary (C03_parallel_resume_skips_inflight)',
+                                      'model': [model_next, want_next, want_rerun], 'impl': [got, ob['executed'], rows]})
 
 
 def run(ctx, n=None):
@@ -276,12 +412,16 @@ def run(ctx, n=None):
     res.rule = ('(a) step files with 0-8 rows mixing skipped / succeeded / failed / in-flight (-1) records, id gaps, with or without end, through the real '
                 'step_next of util.sh under bash; (b) canvas -d with 2-5 gated probe steps, optional failing step and skip set, SIGKILL of the whole session '
                 'before the first record / while a step runs / right after a completion record, then canvas -d -r (optionally killed again and resumed again); '
+                'a step name may repeat, and the exit codes of the resumed invocations may differ from those of the first one (repaired and resumed); '
+                'what the resumed invocation really started is judged by the extracted oracle of C03_resumed_run_executes; (c) the boundary theorem for '
+                'parallel steps replayed on the real canvas (in-flight parallel step below / above a completed one); '
                 'non-trivial = (a) both skipped and non-skipped rows present, (b) every crash+resume pair; distinct by content')
     impl = ctx.build_impl()
     drv = ctx.build_driver('rs', withz=True)
     ctx.shims_used = orch_env.SHIMS_USED
     part_a(ctx, impl, drv, res, n or ctx.budget(400, 10000))
     part_b(ctx, impl, drv, res, (n // 20 if n else ctx.budget(24, 400)))
+    part_c(ctx, impl, drv, res)
     res.traces_validated = res.evaluations
     return res
 
